@@ -149,6 +149,22 @@ def _ex(name, is_expr):
     return name
 
 
+def _pvm(v):
+    """an attribute written without a value takes the table's default: when that default is a string, the real parser
+    stores the string itself (indistinguishable from a written value)"""
+    if isinstance(v, dict) and 'dflt' in v and v['dflt'][:1] in ('"', "'"):
+        import ast
+        try:
+            return ast.literal_eval(v['dflt'])
+        except Exception:  # noqa
+            return v
+    return v
+
+
+def _params_m(ps):
+    return [[k, _pvm(v)] for k, v in ps]
+
+
 def norm_model(tree):
     """bring the model's tree to the same (slightly coarser) form as `norm`"""
     out = []
@@ -160,6 +176,8 @@ def norm_model(tree):
         if k == 'lit':
             out.append(n)
         elif k == 'var':
+            n = list(n)
+            n[3] = _params_m(n[3])
             out.append(n)
         elif k in ('call', 'return'):
             out.append(n)
@@ -171,7 +189,7 @@ def norm_model(tree):
             out.append(['if', [[_ex(c[0], c[1]), c[1], norm_model(c[2])] for c in n[1]],
                         norm_model(n[2]) if n[2] is not None else None])
         elif k == 'in':
-            out.append(['in', n[1], n[2], n[3], norm_model(n[4]), norm_model(n[5]) if n[5] is not None else None])
+            out.append(['in', n[1], n[2], _params_m(n[3]), norm_model(n[4]), norm_model(n[5]) if n[5] is not None else None])
         elif k == 'with':
             out.append(['with', n[1], n[2], [], norm_model(n[4])])
         elif k == 'let':
